@@ -130,7 +130,10 @@ class Scan(Scenario):
     isinstance_shim = ["mxlpy.simulation"]
     max_paths = 4000
 
-    def __init__(self, kind, scan_kind, cols, nrows, parallel, fail_row=None, via_mc=False, read=("variables", "fluxes"), max_workers=None):
+    def __init__(self, kind, scan_kind, cols, nrows, parallel, fail_row=None, via_mc=False, read=("variables", "fluxes"), max_workers=None,
+                 after_y0_scan=False, dup_labels=False):
+        self.after_y0_scan = after_y0_scan  # an earlier scan of the same model was given y0=...: that is that scan's business only
+        self.dup_labels = dup_labels  # the scan table repeats a row label: refused, or answered row by row
         self.max_workers = max_workers
         self.kind = kind
         self.scan_kind = scan_kind
@@ -142,7 +145,7 @@ class Scan(Scenario):
         self.read = tuple(read)
         self.key = (f"C09/{kind}/{'mc.' if via_mc else ''}{scan_kind}/{'+'.join(cols)}/r{nrows}/"
                     f"{'pool' if parallel else 'seq'}{f'/fail{fail_row}' if fail_row is not None else ''}/{'-'.join(read)}"
-                    f"{'' if max_workers is None else '/workers' + str(max_workers)}")
+                    f"{'' if max_workers is None else '/workers' + str(max_workers)}{'/after-y0-scan' if after_y0_scan else ''}{'/dup-labels' if dup_labels else ''}")
 
     def run(self, ctx):
         import mxlpy.integrators.int_scipy as isc
@@ -174,6 +177,8 @@ class Scan(Scenario):
         base_y = {v: ctx.real(f"i_{v}") for v in names}
         table = {c: [ctx.real(f"cell{r}_{c}") for r in range(self.nrows)] for c in self.cols}
         labels = [5, 2, 9, 1, 7, 3][: self.nrows]  # row labels deliberately not ascending
+        if self.dup_labels:
+            labels[-1] = labels[0]
         if self.nrows >= 4 and len(self.cols) > 1:
             # pandas compares the cells of a multi-column table with each other (equality and order patterns multiply the
             # paths: > 4000 for 4 rows x 2 columns); here every column is strictly decreasing - distinct cells whose sorted
@@ -216,8 +221,33 @@ class Scan(Scenario):
             kw["parallel"] = self.parallel
         elif self.max_workers is not None:
             kw["max_workers"] = self.max_workers
+        if self.after_y0_scan:
+            # an earlier scan of the same model object, started from supplied values
+            with ctx.impl("earlier scan with y0="):
+                pre_kw = dict(kw)
+                pre_kw["y0"] = {names[0]: ctx.real("pre_y0")}
+                if self.scan_kind == "ss":
+                    mod.steady_state(m, **pre_kw)
+                else:
+                    mod.time_course(m, time_points=np.array(tps), **pre_kw)
+        if self.dup_labels:
+            try:
+                if self.scan_kind == "ss":
+                    res = mod.steady_state(m, **kw)
+                else:
+                    res = mod.time_course(m, time_points=np.array(tps), **kw)
+            except ValueError as e:
+                ctx.note(f"refused: {e}")
+                ctx.true("a table with a repeated row label is refused (ValueError)", True)
+                return
+            n_rows = len(res.variables) if self.scan_kind == "ss" else len(res.raw_results)
+            ctx.true("a table with a repeated row label: one result per row (or a refusal)", n_rows == self.nrows, info=f"{n_rows} results for {self.nrows} rows")
+            if n_rows != self.nrows or self.scan_kind != "ss":
+                return
         with ctx.impl("scan"):
-            if self.scan_kind == "ss":
+            if self.dup_labels:
+                pass
+            elif self.scan_kind == "ss":
                 res = mod.steady_state(m, **kw)
             elif self.scan_kind == "tc":
                 res = mod.time_course(m, time_points=np.array(tps), **kw)
@@ -352,6 +382,12 @@ def scenarios(tier, seed):
             scs.append(Scan("decay", sk, ("k", "x"), 4, True))
             scs.append(Scan("chain", sk, ("k2", "y"), 4, False))
             scs.append(Scan("decay", sk, ("k",), 4, True, fail_row=2))
+    # an earlier scan with y0= must not leak into this one; a repeated row label is refused or answered per row
+    for sk in ("ss", "tc"):
+        scs.append(Scan("decay", sk, ("k",), 2, False, after_y0_scan=True))
+        scs.append(Scan("decay", sk, ("k",), 3, False, dup_labels=True))
+    scs.append(Scan("decay", "tc", ("k",), 2, True, after_y0_scan=True))
+    scs.append(Scan("decay", "tc", ("k",), 3, True, dup_labels=True))
     # a failing row in a model with a readout (the placeholder must have the readout column as well)
     for sk in ("ss", "tc"):
         for par in (False, True):
